@@ -924,7 +924,8 @@ PROPS = {
         "props_module": "HdModel.Props.C16",
         "class_prefix": ["C16/"],
         "theorems": ["Hd.Dns.C16_eq_spec", "Hd.Dns.C16_perm", "Hd.Dns.C16_both", "Hd.Dns.C16_no_preferred",
-                     "Hd.Dns.C16_no_other", "Hd.Dns.C16_port", "Hd.Dns.C16_preference", "Hd.Dns.C16_connecting"],
+                     "Hd.Dns.C16_no_other", "Hd.Dns.C16_port", "Hd.Dns.C16_preference", "Hd.Dns.C16_connecting",
+                     "Hd.Dns.C16_idempotent"],
         "streams": [
             {"name": "dns", "quick": 6000, "thorough": 300000, "head": 5, "unit": 3,
              "nontrivial": dns_nontrivial, "distribution": dns_dist},
